@@ -32,7 +32,7 @@ ASSUMPTIONS = [
     "with -n the lots must still cover the disposals (otherwise the run fails: C02), so -n mutants overdraw one account while another holds the coins",
 ]
 SETTINGS: Dict[str, Dict[str, Any]] = {
-    "quick": {"cases": 2000, "cli_cases": 10, "budget_s": 45, "minimums": {"accounts_checked": 8000, "nontrivial": 800, "negative_runs": 100, "cli_runs": 5}},
+    "quick": {"cases": 2000, "cli_cases": 48, "budget_s": 45, "minimums": {"accounts_checked": 8000, "nontrivial": 800, "negative_runs": 100, "cli_runs": 5}},
     "thorough": {"cases": 80000, "cli_cases": 150, "budget_s": 300, "minimums": {"accounts_checked": 300000, "nontrivial": 30000, "negative_runs": 4000, "cli_runs": 100}},
 }
 PROFILES = [
